@@ -34,7 +34,7 @@ func c14Invert(m map[string]string) map[string]string {
 }
 
 func verifHarness_C14_indexedFields() {
-	verifConfig("maporder", 1) // Go's map iteration order is unspecified: explore rotations
+	verifConfig("maporder", verifParam("maporder", 0)) // Go's map iteration order is unspecified: rotations explored in the thorough tier
 	universe := []string{"k1", "k2", "k3", "x"}
 	mapping := c14Mappings()[verifChoose("mapping", 8)]
 	var fields map[string]*common.Payload
